@@ -291,13 +291,18 @@ impl DataModel {
 
     pub fn update_system(&mut self, model: &str) -> Result<(), Error> {
         let new_data_model = Self::parse_internal(model, 0)?;
-        self.update_with(new_data_model, true)?;
+        // update_with changes the value while it validates: work on a copy, keep it on success
+        let mut updated = self.clone();
+        updated.update_with(new_data_model, true)?;
+        *self = updated;
         Ok(())
     }
 
     pub fn update(&mut self, model: &str) -> Result<(), Error> {
         let new_data_model = Self::parse_internal(model, 1)?; //decal namespace id by one to reserce the first id to the sys namespace
-        self.update_with(new_data_model, false)?;
+        let mut updated = self.clone();
+        updated.update_with(new_data_model, false)?;
+        *self = updated;
         Ok(())
     }
 
